@@ -59,15 +59,50 @@ impl TxDependency {
     pub uninterp spec fn released(&self, txid: TxId) -> bool;       // issued: remove(txid, _) has been called
     pub uninterp spec fn committed(&self, txid: TxId) -> bool;      // issued: commit(txid)
     pub uninterp spec fn parked(&self, txid: TxId) -> bool;         // issued: add(txid, _) or key_tx(txid, _)
-    #[verifier::external_body] pub fn next(&self) -> (r: Option<TxId>) { unimplemented!() }
+    pub uninterp spec fn num(&self) -> usize;
+    #[verifier::external_body] pub fn next(&self) -> (r: Option<TxId>) ensures r matches Some(i) ==> i < self.num() { unimplemented!() }
     #[verifier::external_body] pub fn index(&self) -> usize { unimplemented!() }
     #[verifier::external_body] pub fn remove(&self, txid: TxId, pop_next: bool) -> (r: Option<TxId>)
-        ensures self.released(txid), !pop_next ==> r is None, r matches Some(n) ==> n == txid + 1 { unimplemented!() }
+        ensures self.released(txid), !pop_next ==> r is None, r matches Some(n) ==> n == txid + 1 && n < self.num() { unimplemented!() }
     #[verifier::external_body] pub fn commit(&self, txid: TxId) ensures self.committed(txid) { unimplemented!() }
     #[verifier::external_body] pub fn key_tx(&self, txid: TxId, c: PublishedCursorReader<'_>) ensures self.parked(txid) { unimplemented!() }
     #[verifier::external_body] pub fn add(&self, txid: TxId, dep: Option<TxId>)
         requires dep matches Some(d) ==> d < txid,    //@ID TxDependency_add.P1 : C16
         ensures self.parked(txid) { unimplemented!() }
+}
+
+// ---- Beneficiary (beneficiary.rs / beneficiary/history.rs; real code under contract in U10) ----
+pub struct BeneficiaryValidation { pub valid: bool, pub dependency: Option<TxId> }
+impl BeneficiaryValidation {
+    pub fn is_valid(&self) -> (b: bool) ensures b == self.valid { self.valid }
+    pub fn dependency(&self) -> (d: Option<TxId>) ensures d == self.dependency { self.dependency }
+}
+#[verifier::external_body] pub struct Beneficiary { p: u8 }
+impl Beneficiary {
+    /// "the whole origin chain recorded by this read is still the current one" (defined by U10)
+    pub uninterp spec fn chain_valid(&self, txid: TxId, e: BeneficiaryReadVersion) -> bool;
+    pub uninterp spec fn recorded_estimate(&self, v: TxVersion) -> bool;     // issued facts
+    pub uninterp spec fn recorded_execution(&self, v: TxVersion) -> bool;
+    pub uninterp spec fn invalidated(&self, v: TxVersion) -> bool;
+    #[verifier::external_body] pub fn validate(&self, txid: TxId, expected: &BeneficiaryReadVersion) -> (v: BeneficiaryValidation)
+        ensures v.valid == self.chain_valid(txid, *expected), v.dependency matches Some(d) ==> d < txid { unimplemented!() }
+    #[verifier::external_body] pub fn invalidate(&self, v: &TxVersion) -> (b: bool) ensures b ==> self.invalidated(*v) { unimplemented!() }
+    #[verifier::external_body] pub fn record_estimate(&self, v: &TxVersion) -> (b: bool) ensures b ==> self.recorded_estimate(*v) { unimplemented!() }
+    #[verifier::external_body] pub fn record_execution(&self, v: &TxVersion, r: &SpeculativeResult) -> (b: bool) ensures b ==> self.recorded_execution(*v) { unimplemented!() }
+}
+
+// ---- what "this read is still valid" means (C01 mechanism 2, C02) ----
+spec fn valid_read(mv: Map<LocationAndType, BTreeMap<MemoryEntry>>, b: Beneficiary, txid: TxId, loc: LocationAndType, v: ReadVersion) -> bool {
+    match v {
+        ReadVersion::Beneficiary(e) => b.chain_valid(txid, e),
+        _ => {
+            let w = if mv.contains_key(loc) { latest_before(mv[loc]@, txid as int) } else { None };
+            match w {
+                Some(k) => !mv[loc]@[k].estimate && v == ReadVersion::MvMemory(TxVersion { txid: k, incarnation: mv[loc]@[k].incarnation }),
+                None => v is Storage,
+            }
+        }
+    }
 }
 
 // ---- Scheduler well-formedness (what Scheduler::build establishes) ----
@@ -79,6 +114,9 @@ impl<DB: DatabaseRef> Scheduler<DB> {
         &&& self.tx_results.len() == self.block_size
         &&& self.txs.len() == self.block_size
         &&& self.block_size < usize::MAX
+        &&& self.tx_dependency.num() == self.block_size
+        // assumed: incarnation counters never reach usize::MAX (one increment per execution attempt)
+        &&& forall|i: int, st: TxState| 0 <= i < self.block_size && #[trigger] self.tx_states@[i].inv(st) ==> st.incarnation < usize::MAX
         &&& self.abort.may_reset() == false
     }
 }
